@@ -195,6 +195,8 @@ def classify(case, meta, x, otype, oid, before, after):
 def oracle(ctx, case, meta, x):
     """model-independent: listing before caching == listing after restore, for every declared output"""
     bad = 0
+    if "hang" in (x.get("load"), x.get("load2")) and not S.confirm_hang(ctx, case, lambda o: "hang" in (o.get("load"), o.get("load2"))):
+        return 0        # a stall that does not reproduce (loaded machine): not a hang of the code
     if x.get("write") != "ok":
         ctx.violation("writing the outputs of a generated target to the cache failed", {"kind": "oracle", "oracle": "write succeeds",
                       "request": case, "meta": meta, "impl": x}, signature="write-fails:%s" % meta["kind"])
